@@ -190,6 +190,54 @@ def check(ck):
     ck.rule('R16.9', 'deep_merge / deep_merge_check / assoc_path, with which composites are merged and embedded, keep their recursion skeleton')
     H.deep_merge_shape(ck, 'R16.9')
     H.assoc_path_shape(ck, 'R16.9')
+    H.deep_copy_internal_shape(ck, 'R16.9')
+    r16_10(ck)
+
+
+def r16_10(ck):
+    ck.rule('R16.10', 'building an engine leaves the composite it is built '
+            'from unchanged: Engine._make_store and Engine.__init__ never '
+            'merge into, update or otherwise mutate a dictionary taken '
+            'from the composite (or from the other arguments)')
+    n = 0
+    for q in ('Engine._make_store', 'Engine.__init__'):
+        f = ck.fn(q, 'core.engine')
+        pnames = set(A.params_of(f.node)) - {'self'}
+        for c in A.calls_in(f.node, ('deep_merge', 'deep_merge_check',
+                                     'deep_merge_combine_lists',
+                                     'deep_merge_multi_update')):
+            a0 = A.arg_of(c, 0)
+            if a0 is None:
+                continue
+            n += 1
+            from_arg = derives(
+                f.node, a0, lambda x: isinstance(x, ast.Name)
+                and x.id in pnames, at=c) and not (
+                isinstance(a0, ast.Call) and A.call_name(a0) in (
+                    'deep_copy_internal', 'deepcopy', 'copy', 'dict'))
+            ck.require(not from_arg, 'R16.10', f, c,
+                       'the dictionary merged into is owned by the engine',
+                       '%s merges into %s, which belongs to an argument of '
+                       'the engine: the composite is changed by building an '
+                       'engine from it, and the next engine built from it '
+                       '(or from the store generated from it) starts from '
+                       'the merged state' % (q, A.unparse(a0)), c)
+        for c in A.calls_in(f.node, ('update', 'setdefault', 'pop',
+                                     'clear')):
+            r = A.call_receiver(c)
+            if r is None:
+                continue
+            root = r
+            while isinstance(root, (ast.Subscript, ast.Attribute)):
+                root = root.value
+            if isinstance(root, ast.Name) and root.id in pnames and \
+                    isinstance(r, (ast.Subscript, ast.Name)):
+                n += 1
+                ck.fail('R16.10', f, c,
+                        '%s changes %s in place, which belongs to an '
+                        'argument of the engine' % (q, A.unparse(r)), c,
+                        what='arguments are not changed in place')
+    ck.note('R16.10: %d mutating calls in the engine constructor path' % n)
 
 
 def _part_sources(f, expr):
@@ -343,7 +391,39 @@ def _embedding(ck, f, rule, parts=('processes', 'steps', 'flow',
         if isinstance(d, ast.Dict):
             for k, v in zip(d.keys, d.values):
                 if isinstance(k, ast.Constant) and k.value in parts:
-                    found[k.value] = v
+                    found.setdefault(k.value, v)
+    # {key: g(value) for key, value in <literal dict>.items()}: the same
+    # mapping written as data
+    import copy as _copy
+    for dc in ast.walk(f.node):
+        if not (isinstance(dc, ast.DictComp) and len(dc.generators) == 1):
+            continue
+        g = dc.generators[0]
+        if not (isinstance(g.iter, ast.Call) and A.call_name(g.iter) ==
+                'items' and isinstance(g.target, ast.Tuple) and len(
+                    g.target.elts) == 2 and not g.ifs and A.unparse(
+                    dc.key) == A.unparse(g.target.elts[0])):
+            continue
+        src = expand(f.node, g.iter.func.value, enclosing_stmt(dc))
+        if not isinstance(src, ast.Dict):
+            continue
+        vvar = A.unparse(g.target.elts[1])
+        for k, v in zip(src.keys, src.values):
+            if isinstance(k, ast.Constant) and k.value in parts:
+                e = _copy.deepcopy(dc.value)
+                for x in ast.walk(e):
+                    for fld, val in ast.iter_fields(x):
+                        if isinstance(val, ast.Name) and val.id == vvar:
+                            setattr(x, fld, v)
+                        elif isinstance(val, list):
+                            for i2, y in enumerate(val):
+                                if isinstance(y, ast.Name) and y.id == vvar:
+                                    val[i2] = v
+                for x in ast.walk(e):
+                    for c2 in ast.iter_child_nodes(x):
+                        c2._parent = x
+                e._parent = getattr(dc, '_parent', None)
+                found[k.value] = e
     for part in parts:
         v = found.get(part)
         ok = isinstance(v, ast.Call) and A.call_name(v) == 'assoc_in' and \
@@ -799,6 +879,55 @@ def r16_8_paths(ck, rule='R16.8'):
         cfg.node(sets[0]), cfg.node(ports[0])) and A.unparse(
         A.arg_of(ports[0], 0)) == '%s.schema' % procv and own_topology(
         A.arg_of(ports[0], 1), ports[0])
+    # the recursion descends with the entries of this key: the nested
+    # processes, THEIR flow (flow.get(key)) and THEIR topology
+    def own_flow(e, at):
+        x = expand(gp.node, e, enclosing_stmt(at))
+        for y in ast.walk(x):
+            if isinstance(y, ast.Call) and A.call_name(y) == 'get' and \
+                    A.is_name(A.call_receiver(y), gpp[2]) and y.args and \
+                    A.unparse(y.args[0]) == keyv:
+                return True
+            if isinstance(y, ast.Subscript) and A.is_name(
+                    y.value, gpp[2]) and A.unparse(y.slice) == keyv:
+                return True
+        if isinstance(e, ast.Name):
+            # assigned on both branches of `... if flow else None`
+            ds = [d for d in reaching(gp.node).at(enclosing_stmt(at), e.id)]
+            return bool(ds) and any(
+                d.value is not None and any(
+                    isinstance(y, ast.Call) and A.call_name(y) == 'get'
+                    and A.is_name(A.call_receiver(y), gpp[2])
+                    for y in ast.walk(d.value)) for d in ds) and all(
+                d.value is not None and not A.is_name(d.value, gpp[2])
+                for d in ds)
+        return False
+    recs = [c2 for c2 in A.calls_in(gp.node, gp.name)
+            if not A.is_name(A.call_receiver(c2), 'self')
+            or True]
+    recs = [c2 for c2 in recs if c2 is not None and
+            enclosing_stmt(c2) is not None]
+    for c2 in A.calls_in(gp.node, '_generate_paths'):
+        a0, a1, a2 = (A.arg_of(c2, 0, gpp[1]), A.arg_of(c2, 1, gpp[2]),
+                      A.arg_of(c2, 2, gpp[3]))
+        okr = procv is not None and A.is_name(a0, procv) and \
+            a1 is not None and own_flow(a1, c2) and a2 is not None and \
+            own_topology(a2, c2)
+        ck.require(okr, rule, gp, c2,
+                   'nested compartments are built from the nested '
+                   'processes, their own flow entry and their own topology',
+                   'the recursion of _generate_paths passes (%s, %s, %s): '
+                   'nested steps are looked up in the flow of the wrong '
+                   'level and lose their dependencies' % (
+                       A.unparse(a0), A.unparse(a1), A.unparse(a2)), c2)
+    for s2 in A.walk_no_nested(gp.node):
+        if isinstance(s2, ast.Assign) and isinstance(
+                s2.targets[0], ast.Subscript) and A.subscript_key(
+                s2.targets[0]) == '_flow':
+            ck.require(own_flow(s2.value, s2), rule, gp, s2,
+                       "a step's '_flow' is the flow entry of its own key",
+                       "the '_flow' recorded for a step is %s, not the "
+                       'flow entry under its key' % A.unparse(s2.value), s2)
     ck.require(ok, rule, gp, ports[0] if ports else gp.node.name,
                "the ports are distributed from the process's get_schema() "
                '(overrides included) with its own topology',
